@@ -33,7 +33,7 @@ RULE = ("cli leg: Hypothesis draws 1..3 input files (well-formed FASTA/aligned F
         "rows without an all-gap column, and for well-formed inputs satisfies the full C01 predicate; failure => non-zero status "
         "and a non-empty diagnostic. fuzz leg: libFuzzer targets with the alignment oracle inside the target, from an empty and "
         "from a seed corpus. valgrind leg: memcheck (uninitialised values, invalid accesses) over generated library cases incl. "
-        ">= 500 columns and the array API. letter leg: all 52 letters x 2 kinds enumerated. align-sweep leg: every number of sequences 2..140, 250..261 and every length 1..140, 250..261, 490..519, 1018..1029 read->run->write. sweep leg: every row count 2..2100, every width 1..260 and every name length 1..400 of a synthetic alignment through read->finalise->write(fasta, msf, clu) under ASan/UBSan/LSan (exhaustive over those ranges). Non-trivial (cli) = the case reached "
+        ">= 500 columns and the array API. letter leg: all 52 letters x 2 kinds enumerated. option-grid leg: each numeric option x 27 special spellings of a number, thread counts and type/format words at the edges, and the penalties / thread count / type constant through kalign_run. align-sweep leg: every number of sequences 2..140, 250..261 and every length 1..140, 250..261, 490..519, 1018..1029 read->run->write. sweep leg: every row count 2..2100, every width 1..260 and every name length 1..400 of a synthetic alignment through read->finalise->write(fasta, msf, clu) under ASan/UBSan/LSan (exhaustive over those ranges). Non-trivial (cli) = the case reached "
         "kalign_run (exit 0) or was rejected with a diagnostic after parsing at least one file; distinct by case hash; fuzz "
         "executions are counted separately in coverage.fuzz.")
 ASSUMPTIONS = ["byte-level inputs are bounded (fuzz 4 KiB, cli files a few KiB .. 100 KiB)",
@@ -621,6 +621,40 @@ def asweep_case(case):
     return None
 
 
+def option_grid_leg(tier, seed, stats):
+    """every numeric option x every special spelling of a number (nan, inf, hex, exponents, signs, blanks, ...), the type and
+    format words in odd spellings, thread counts at the edges: one CLI run each on a fixed valid input (nucleotide and
+    protein), and the penalties also through kalign_run; judged like every other CLI case"""
+    out = []
+    good = [{"body": ">a\nACGTACGTTACG\n>b\nACGTCGTTACGA\n>c\nACGTACGTACG\n", "wf": {"names": ["a", "b", "c"], "seqs": ["ACGTACGTTACG", "ACGTCGTTACGA", "ACGTACGTACG"]}, "mode": "good"},
+            {"body": ">p\nMKVLHHWDEFK\n>q\nMKILHWDEFKR\n>r\nMKVHHWDEF\n", "wf": {"names": ["p", "q", "r"], "seqs": ["MKVLHHWDEFK", "MKILHWDEFKR", "MKVHHWDEF"]}, "mode": "good"}]
+    numbers = ["nan", "NaN", "-nan", "nan(1)", "inf", "-inf", "infinity", "1e38", "1e39", "1e-45", "-0", "0x10", "1e6", "1000001", "", " 5", "5 ", "+5", "5,5",
+               ".5", "5.", "1e", "--5", "5e-1", "00005", "5f", "1_000"]
+    vecs = []
+    for opt in ("--gpo", "--gpe", "--tgpe"):
+        for v in numbers:
+            vecs.append(([opt, v], "2 5 -1 -1 -1"))
+    for v in ["0", "-1", "1", "17", "64", "1000", "99999", "2147483647", "2147483648", "4294967297", "abc", "", "1.5", "0x4"]:
+        vecs.append((["-n", v], "2 5 -1 -1 -1"))
+    for v in ["DNA", "Dna", "dna ", " dna", "rnadna", "internalprotein", "pfasta", "clustal", "clu", "msfasta", "fa", "FASTA", "afa", "a2m", "phylip"]:
+        vecs.append((["--type" if v[:1].lower() in "dri" or "protein" in v else "--format", v], "2 5 -1 -1 -1"))
+    for lr in ("1 5 nan -1 -1", "1 5 -1 nan -1", "1 5 -1 -1 nan", "2 5 nan nan nan", "1 5 inf -1 -1", "1 5 -1 -1 -inf", "1 5 1e38 1e38 1e38",
+               "1 5 1e-45 0 1e-45", "0 5 -1 -1 -1", "-3 5 -1 -1 -1", "100000 5 -1 -1 -1", "1 99 -1 -1 -1", "1 -7 -1 -1 -1"):
+        vecs.append((["--format", "msf"], lr))
+    cases_ = []
+    for i, (args, lr) in enumerate(vecs):
+        cases_.append({"leg": "cli", "files": [good[i % 2]], "args": list(args) + (["--format", "fasta"] if "--format" not in args else []), "out": "file", "stdin": None,
+                       "odd_path": None, "input_style": "positional", "dangling": None, "lib_pre": [], "lib_run": lr})
+    with ThreadPoolExecutor(max_workers=12) as ex:
+        res = list(ex.map(check_cli, cases_))
+    for c, r in zip(cases_, res):
+        stats.record(c, r)
+        stats.classes["option_grid"] += 1
+        if r["status"] == "violation":
+            out.append({"case": c, "detail": r["detail"], "kind": r.get("kind")})
+    return out
+
+
 def asweep_leg(tier, seed, stats):
     from vlib import sweeps
     out = []
@@ -702,6 +736,7 @@ def extra(tier, seed, stats):
     out += letter_leg(tier, seed, stats)
     out += sweep_leg(tier, seed, stats)
     out += asweep_leg(tier, seed, stats)
+    out += option_grid_leg(tier, seed, stats)
     out += valgrind_leg(tier, seed, stats)
     out += fuzz_leg(tier, seed, stats)
     return out
